@@ -5,6 +5,7 @@ use vcore::runner::{unhex, Mode, Report, Tier};
 mod c01;
 mod c02;
 mod c03;
+mod c04;
 mod c05;
 mod c07;
 mod c08;
@@ -66,6 +67,7 @@ fn main() {
         "C01" => c01::run(report),
         "C02" => c02::run(report),
         "C03" => c03::run(report),
+        "C04" => c04::run(report),
         "C05" => c05::run(report),
         "C07" => c07::run(report),
         "C08" => c08::run(report),
